@@ -11,6 +11,7 @@ import CedarVerif.Driver.Ops.NoPanic
 import CedarVerif.Driver.Ops.Ffi
 import CedarVerif.Driver.Ops.Tyck
 import CedarVerif.Driver.Ops.SchemaSyntax
+import CedarVerif.Driver.Ops.Manifest
 /-
 Line-protocol driver: one request per line on stdin, one reply per line on stdout.
 Unknown or malformed requests answer `(bad-op)`; the driver never defaults.
@@ -32,7 +33,8 @@ def handlers : List (Sexp → Option String) := [
   Ops.handleNoPanic,
   Ops.handleFfi,
   Ops.handleTyck,
-  Ops.handleSchemaSyntax
+  Ops.handleSchemaSyntax,
+  Ops.ManifestOps.handleManifest
 ]
 
 def handle (x : Sexp) : String :=
